@@ -213,6 +213,26 @@ Proof.
   intros t H. do 3 (destruct t as [|t]; [vm_compute; reflexivity|]). lia.
 Qed.
 
+(* ---- the syntactic guard: no low-priority task is ever submitted ([no_lowprio]) ----
+   then the low-priority queue stays empty and the pre-finding statements hold as they were *)
+Theorem C19_suspend_resume_return_no_lowprio : forall c progs sched, nw c > 0 -> (forall t, Forall (api_ok c) (progs t)) ->
+  (forall t, Forall no_lowprio (progs t)) ->
+  let cf := sr_run c progs sched in
+  stuck c cf -> forall t, client_done (snd cf t) = true \/ (at_wait_idle (snd cf t) = true /\ live (fst cf) > 0).
+Proof. exact suspend_resume_return_nolow. Qed.
+Print Assumptions C19_suspend_resume_return_no_lowprio.
+
+Theorem C19_no_task_stranded_stealing_no_lowprio : forall c progs sched w0, (forall t, Forall (api_ok c) (progs t)) ->
+  (forall t, Forall no_lowprio (progs t)) ->
+  let cf := sr_run c progs sched in
+  stealing c = true -> stuck c cf -> w0 < nw c -> st (fst cf) w0 = rs_running ->
+  qs (fst cf) = [] /\ sq (fst cf) = [] /\ heldl (fst cf) = [] /\ Permutation (map fst (executed (fst cf))) (submitted (fst cf)).
+Proof. exact no_task_stranded_stealing_nolow. Qed.
+Print Assumptions C19_no_task_stranded_stealing_no_lowprio.
+
+Example C19_example_no_lowprio : forall t, Forall no_lowprio (ex_progs t).
+Proof. intros t. do 4 (destruct t as [|t]; [cbn; repeat constructor|]). constructor. Qed.
+
 (* ---- what [enabled] (hence [stuck]) means ----
    a thread that is not enabled only stutters: without a spurious wake-up / lock contention in that step (fst o = false) its step
    leaves the shared state unchanged ([geq]: equal, [waiting] up to extensionality) and it is still not enabled.  So in a stuck
